@@ -196,6 +196,10 @@ func runCheck(id, tier string, seed uint64) int {
 	if cores > 16 {
 		cores = 16
 	}
+	// VERIF_CORES: fewer worker slots (background sweeps that must leave the machine usable); never below the heaviest job
+	if v, err := strconv.Atoi(os.Getenv("VERIF_CORES")); err == nil && v >= 4 && v < cores {
+		cores = v
+	}
 	sem := make(chan struct{}, cores)
 	var mu, acq sync.Mutex
 	var results []*shardResult
